@@ -21,7 +21,7 @@ func init() {
 		Rule:   "every civil day in the year set at a time of day that rotates through the 26 slot edges by day number (thorough: all days 1..9998 at one rotating time + quick-set years at every 5th slot edge; quick: quick-set years at one rotating time): the object graph {Solar, Lunar, EightChar x sect, Yun x gender x sect, all DaYun, LiuNian/XiaoYun of every period (first, last and a rotating entry; entries 0,1 of the first two), LiuYue of the first year of the first two periods and of a rotating one, LunarTime + GetTimes, NineStars, Tao, Foto, festivals, LunarYear, LunarMonth, JieQi prev/next/current, Fu, ShuJiu, Holiday, SolarWeek x start 0..6, SolarMonth/Season/HalfYear/Year}; every exported zero-argument method found by reflection is called; oracle: no panic, index ranges, vocabulary membership, non-empty strings except a fixed optional list, no duplicate list entries. non-trivial = method calls on objects that only exist conditionally (Fu, ShuJiu, Holiday, current JieQi, festivals) or at 23:xx",
 		Assume: []string{"range/vocabulary rules are keyed by accessor-name suffix (GanIndex 0..9, ZhiIndex 0..11, ...InGanZhi in JIA_ZI, ...ShengXiao in SHENG_XIAO, Position* in POSITION_DESC keys, ...)", "optional strings (may be empty): term name of a day without a term, month foetus god in leap months, pillar/xun of great-fortune period 0, NineStar.GetBaMenInQiMen for the centre star, festival remarks/results"},
 		Shards: func(tier string, seed int64) []Shard {
-			return append(narrowShards(tier, seed), Shard{Kind: "tables", Tier: tier, Seed: seed})
+			return append(narrowShards(tier, seed), Shard{Kind: "tables", Tier: tier, Seed: seed}, Shard{Kind: "yun-gap", Ranges: [][2]int{{1571, 1573}}, Tier: tier, Seed: seed}, Shard{Kind: "yun-gap", Ranges: [][2]int{{1574, 1576}}, Tier: tier, Seed: seed}, Shard{Kind: "yun-gap", Ranges: [][2]int{{1577, 1579}}, Tier: tier, Seed: seed}, Shard{Kind: "yun-gap", Ranges: [][2]int{{1580, 1582}}, Tier: tier, Seed: seed})
 		},
 		Run:           runC08,
 		MinNontrivial: 100,
@@ -291,6 +291,10 @@ func runC08(w *W) {
 		c08Tables(w)
 		return
 	}
+	if w.Shard.Kind == "yun-gap" {
+		c08YunGap(w)
+		return
+	}
 	shallowSlices = true
 	rules := newC08Rules()
 	qset := map[int]bool{}
@@ -480,4 +484,46 @@ func c08Yun(w *W, visit func(interface{}, string, bool, bool), ec *calendar.Eigh
 			visit(xy, fmt.Sprintf("%s DaYun[%d].XiaoYun[%d]", ctx, i, k), false, false)
 		}
 	}
+}
+
+// c08YunGap: the fortune start date is birth + (years, months, days, hours); for births in the decade before the
+// 1582 calendar gap it can land on or next to 1582-10-05..14. Dense pass: every day 1571..1582 x 26 slot-edge
+// times x both genders x both schools x both sects, fortune-level accessors only.
+func c08YunGap(w *W) {
+	sweepDays(w, "C08", func(d *Day, prev *Day) {
+		for _, t := range tbTimes {
+			l := d.At(t.h, t.m, t.s).GetLunar()
+			ec := l.GetEightChar()
+			for sect := 1; sect <= 2; sect++ {
+				ec.SetSect(sect)
+				for g := 0; g <= 1; g++ {
+					for ys := 1; ys <= 2; ys++ {
+						ctx := fmt.Sprintf("%s %02d:%02d:%02d sect=%d gender=%d yunSect=%d", d.Ymd, t.h, t.m, t.s, sect, g, ys)
+						w.R.Evals++
+						w.R.Transitions++
+						w.R.Nontrivial++
+						msg, p := try(func() {
+							yun := ec.GetYunBySect(g, ys)
+							st := yun.GetStartSolar()
+							if !solarValid(st) {
+								panic("invalid start date " + st.ToYmdHms())
+							}
+							for _, dy := range yun.GetDaYun() {
+								_ = dy.GetStartYear() + dy.GetEndYear() + dy.GetStartAge() + dy.GetEndAge()
+								_ = dy.GetGanZhi()
+							}
+						})
+						if p {
+							w.ViolT("C08:panic:Yun.GetStartSolar/GetDaYun:gap-births", fmt.Sprintf("fortune accessors panicked for the chart %s: %s", ctx, msg), ctx,
+								fmt.Sprintf("func TestReplay(t *testing.T) { calendar.NewSolar(%d,%d,%d,%d,%d,%d).GetLunar().GetEightChar().GetYunBySect(%d,%d).GetDaYun() }", d.Y, d.M, d.D, t.h, t.m, t.s, g, ys))
+						}
+					}
+				}
+			}
+			ec.SetSect(2)
+		}
+		if prev == nil {
+			w.Sample(map[string]interface{}{"gap_births_from": d.Ymd, "charts_per_day": 26 * 8})
+		}
+	})
 }
